@@ -102,6 +102,7 @@ type Thread struct {
 	exiting bool
 	nev     int
 	Site    string // last return-site label announced by this thread
+	vc      VC     // vector clock (hb.go)
 }
 
 func (t *Thread) Done() bool    { return t.done }
@@ -162,6 +163,10 @@ type World struct {
 	Steps    int
 	// Unsupported is set when instrumented code used a construct the shadow model does not cover.
 	Unsupported string
+	// happens-before tracking (hb.go)
+	objClk map[ObjKey]*objClock
+	varID  map[string]int
+	Trace  []Step
 }
 
 var cur *World
@@ -176,6 +181,8 @@ func NewWorld() *World {
 		objID:   map[any]int{},
 		written: map[string]bool{},
 		lastW:   map[string]int{},
+		objClk:  map[ObjKey]*objClock{},
+		varID:   map[string]int{},
 	}
 }
 
@@ -189,6 +196,9 @@ func (w *World) newThread(name string, env bool, fn func()) *Thread {
 	t := &Thread{ID: len(w.Threads), Name: name, Env: env, w: w, resume: make(chan int)}
 	t.hist = [2]uint64{0xcbf29ce484222325 ^ uint64(t.ID+1)*0x9E3779B97F4A7C15, 0x84222325cbf29ce4 + uint64(t.ID+1)}
 	t.pending = &Op{Kind: OpStart, Obj: -1, Label: name}
+	if p := w.running; p != nil {
+		t.vc = cloneVC(p.vc) // spawn edge
+	}
 	w.Threads = append(w.Threads, t)
 	w.join.Add(1)
 	go func() {
@@ -212,6 +222,7 @@ func (w *World) newThread(name string, env bool, fn func()) *Thread {
 			t.exiting = true
 			return
 		}
+		w.commit(t, t.pending, 0)
 		t.pending = nil
 		t.record(Event{Kind: OpStart, Obj: -1, Label: name})
 		fn()
@@ -234,6 +245,7 @@ func (w *World) park(op *Op) (alt int, ok bool) {
 		t.exiting = true
 		runtime.Goexit()
 	}
+	w.commit(t, op, alt)
 	t.pending = nil
 	return alt, true
 }
